@@ -57,7 +57,7 @@ else: PENDING["C09"]=1
 if "C10" in claimed:
     chk("C10", "simgomp", "exploration",
         "The C back end of the working tree is compiled against a simulated OpenMP runtime (ucontext coroutines implementing the GOMP ABI; in the simtrace build every compiler-instrumented memory access is a pre-emption point) and each reachable entry point plus end-to-end integrator calls are run under seeded team sizes (incl. sweeps over every team from 2 to 24, teams smaller than omp_get_max_threads(), thread-count changes between calls, nested teams), scheduling strategies, chunk orders, allocator poison, per-thread floating-point environments, caller-side screening thresholds with near-first / far-first / interleaved point orders, production problem sizes and earlier calls in the same process; a conflict detector (shadow words per synchronisation epoch) directs dense pre-emption at region functions where two threads touch one word; every output is compared with the one-thread result of the same call.",
-        "Sequentially consistent at access granularity; BLAS/libm calls are atomic steps; PySCF's own OpenMP runs single-threaded outside the simulator; FFTW is a naive-DFT stand-in (the wrapper's own loops are real); MPI paths do not run.",
+        "Sequentially consistent at access granularity; BLAS/libm calls are atomic steps; PySCF's own regions are simulated only where they run CiderPress call-backs (frac_lapl.c, slow SDMX generator: child process with the runtime pre-loaded) and run single-threaded elsewhere; FFTW is a naive-DFT stand-in (the wrapper's own loops are real); MPI paths do not run.",
         "deterministic simulation: simulated OpenMP runtime with a seeded scheduler deciding every interleaving (GOMP-call and memory-access pre-emption), team-size/team-limit/chunk-order/allocator fault injection, race-directed search, one-thread reference oracle",
         "DESIGN.md §3.1")
 else: PENDING["C10"]=1
